@@ -101,6 +101,10 @@ def main():
             toks = gens.alive_selfies(rng, rng.randint(1, 40))
             for _ in range(rng.randint(0, 3)):      # hydrogen-rich atoms whose validity depends on the table
                 toks.insert(rng.randint(0, len(toks)), rng.choice(["[NH4]", "[CH5]", "[OH3]", "[CH4]", "[NH3]", "[BH4]", "[SH6]", "[PH5]"]))
+            if rng.random() < 0.3:               # symbols outside the index alphabet in index positions
+                for k in range(len(toks) - 1):
+                    if ("Ring" in toks[k] or "Branch" in toks[k]) and rng.random() < 0.5:
+                        toks[k + 1] = rng.choice(["[F]", "[Cl]", "[=O]", "[Si]", "[nop]", "[N+1]"])
             x = "".join(toks)
             compat = rng.random() < 0.1
             got = list(de.call_decoder(x, compat, False))
